@@ -299,6 +299,47 @@ Definition verdict_of (codes : list nat) : nat :=
   else if existsb (Nat.eqb 4) codes then 4
   else fold_left Nat.max codes 0.
 
+(** certified bounds of the start symbol's dual cells (value, derivative w.r.t. entry (l, i0)):
+    exact for non-recursive grammars (lo = v = Kleene iterate number #nonterminals) *)
+Definition start_bounds (G : grammar) (ws : list (nat * list (option Q))) (rounds : nat) (nonrec : bool)
+           (l : nat) (i0 : list nat) : option (table (R:=D) * table (R:=D)) :=
+  let wd := dual_weights G ws l i0 in
+  if nonrec then
+    match tmt_get (Ztab dops G (env_of dops wd) (length (nonterminals G))) (g_start G) with
+    | Some t => Some (t, t) | None => None end
+  else match encl2_dual G (env_of dops wd) rounds with
+       | Some (lo, v) => match tmt_get lo (g_start G), tmt_get v (g_start G) with
+                         | Some a, Some b => Some (a, b) | _, _ => None end
+       | None => None
+       end.
+
+(** the interval the observed gradient entry is compared with *)
+Definition entry_interval (G : grammar) (ws : list (nat * list (option Q))) (is_log : bool) (rounds : nat) (nonrec : bool)
+           (cot : list Q) (l : nat) (i0 : list nat) (wv : option Q) : option (option (Q * Q)) :=
+  match start_bounds G ws rounds nonrec l i0 with
+  | None => None
+  | Some (tlo, tv) =>
+    match cells_intervals is_log (wq_of wv) tlo tv with
+    | None => None
+    | Some None => Some None
+    | Some (Some (los, his)) => Some (Some (contract cot los his))
+    end
+  end.
+
+(** [bpv]: the value of the code-shaped backward model for this entry, if computed *)
+Definition entry_verdict (iv : option (option (Q * Q))) (ob1 : Q * Q) (bpv : option (option Q)) : nat :=
+  match iv with
+  | None => 30
+  | Some None => 31
+  | Some (Some iv) =>
+    if negb (meets iv ob1) then 1
+    else match bpv with
+         | None => 0
+         | Some (Some m) => if Qeq_bool m (fst iv) && Qeq_bool m (snd iv) then 0 else 20
+         | Some None => 20
+         end
+  end.
+
 Definition grad_check_real (x : grammar_w * list (nat * list (option Q)) * (bool * nat) * list Q
                                 * list (nat * list (Q * Q))) : nat :=
   let '(gw, ws, (is_log, rounds), cot, obs) := x in
@@ -309,7 +350,6 @@ Definition grad_check_real (x : grammar_w * list (nat * list (option Q)) * (bool
   | None => 3
   | Some order =>
     let nonrec := nonrecursive_order G order in
-    let N := length (nonterminals G) in
     (* the code-shaped backward pass, once per case (Real, non-recursive only) *)
     let w0 := weights_tmt ereal_of G ws in
     let bp := if nonrec && negb is_log
@@ -325,34 +365,14 @@ Definition grad_check_real (x : grammar_w * list (nat * list (option Q)) * (bool
         if negb (Nat.eqb (length ob) (length cells) && Nat.eqb (length (snd p)) (length cells)) then [4] else
         map (fun c =>
           let '(i0, wv, ob1) := c in
-          let wd := dual_weights G ws l i0 in
-          let bounds :=
-            if nonrec then
-              match tmt_get (Ztab dops G (env_of dops wd) N) (g_start G) with
-              | Some t => Some (t, t) | None => None end
-            else match encl2_dual G (env_of dops wd) rounds with
-                 | Some (lo, v) => match tmt_get lo (g_start G), tmt_get v (g_start G) with
-                                   | Some a, Some b => Some (a, b) | _, _ => None end
-                 | None => None
-                 end in
-          match bounds with
-          | None => 30
-          | Some (tlo, tv) =>
-            match cells_intervals is_log (wq_of wv) tlo tv with
-            | None => 30
-            | Some None => 31
-            | Some (Some (los, his)) =>
-              let iv := contract cot los his in
-              if negb (meets iv ob1) then 1
-              else match bp with
-                   | None => 0
-                   | Some (bpos, bneg) =>
-                     match fin_q (env_of ereal_ops bpos l i0), fin_q (env_of ereal_ops bneg l i0) with
-                     | Some a, Some b => if Qeq_bool (a - b) (fst iv) && Qeq_bool (a - b) (snd iv) then 0 else 20
-                     | _, _ => 20
-                     end
-                   end
-            end
-          end) (combine (combine cells (snd p)) ob)
+          entry_verdict (entry_interval G ws is_log rounds nonrec cot l i0 wv) ob1
+            (match bp with
+             | None => None
+             | Some (bpos, bneg) =>
+               Some (match fin_q (env_of ereal_ops bpos l i0), fin_q (env_of ereal_ops bneg l i0) with
+                     | Some a, Some b => Some (a - b)%Q
+                     | _, _ => None
+                     end)
+             end)) (combine (combine cells (snd p)) ob)
       end) ws)
   end.
